@@ -330,7 +330,7 @@ func Main(t *testing.T, h Hooks) {
 func writeStats(out string, st *Stats) {
 	if n := yieldpt.Passed.Load(); n > 0 {
 		st.Extra["yield_points_passed_inside_git-sizer_with_a_schedule_installed"] = float64(n)
-		st.Extra["gosched_calls_injected_inside_git-sizer"] = float64(yieldpt.Yielded.Load())
+		st.Extra["yields_injected_at_those_points"] = float64(yieldpt.Yielded.Load())
 	}
 	b, _ := json.MarshalIndent(st, "", " ")
 	os.WriteFile(filepath.Join(out, "stats.json"), b, 0o644)
